@@ -8,3 +8,4 @@ export CARGO_NET_OFFLINE=true
 cargo build --offline --workspace 2>&1 | tail -3
 cargo build --offline --release -p vp-pure 2>&1 | tail -1
 cargo build --offline --manifest-path /repo/Cargo.toml -p sierradb-server --bin sierradb --target-dir "$(pwd)/target-server" 2>&1 | tail -1
+cargo build --offline --release --manifest-path /repo/Cargo.toml -p sierradb-server --bin sierradb --target-dir "$(pwd)/target-server" 2>&1 | tail -1
